@@ -73,4 +73,21 @@ def split (name : Str) : Person × Bool :=
     ({ first := first.take 1, middle := first.drop 1, prelast := vl.1, last := vl.2,
        lineage := splitTex .space b }, tooMany)
 
+/-! ### which tokens have their case examined (used by the statements of `Props/C04.lean`) -/
+
+/-- The tokens whose case decides the split: every token of a name without commas; in the
+comma forms the tokens of the first part except its final token (which is always Last). -/
+def caseTokens (name : Str) : List Str :=
+  match splitTex .comma name with
+  | [] => []
+  | [_] => splitTex .space name
+  | a :: _ => (splitTex .space a).dropLast
+
+/-- The case of the token is decidable within BibTeX's brace-nesting limit: the token scans,
+or it starts with an ASCII capital (then it is upper-case whatever follows). -/
+def caseKnown (tok : Str) : Bool :=
+  (match tok with
+   | c :: _ => isUpperA c
+   | [] => false) || (scan tok).isSome
+
 end Pybtex.Spec
